@@ -174,6 +174,16 @@ func vAppendCommit(L, E int) {
 		vReach("truncated")
 		vAssert(a.removedGTE > c.commit0, "F2-truncate-above-commit")
 		vAssert(r.state == Follower, "L1-truncate-only-as-follower")
+		// only a real conflict removes anything: the entry this node held at the truncation point differs in term
+		// from the one the request carries there (entries it had already acknowledged, possibly committed by the
+		// leader, survive a stale or duplicate request)
+		conflict := false
+		for k, pe := range vEntries {
+			for _, e := range c.ents {
+				conflict = vOr(conflict, vAnd(vAnd(a.removedGTE == c.base+uint64(k)+1, e.index == a.removedGTE), pe.term != e.term))
+			}
+		}
+		vAssert(conflict, "F3-truncate-only-at-a-conflicting-entry")
 	}
 	vAssert(r.commitIndex >= c.commit0, "F1-commit-monotone")
 	if r.commitIndex > c.commit0 {
